@@ -174,17 +174,19 @@ def run_consumer(sim, op, arg, sel, tag, extra=None):
     shutil.rmtree(od, ignore_errors=True)
     os.makedirs(od)
     sel = tuple(sel)
+    add = extra.get('additional_dict') or {}
     if op == 'wp':
-        r = call(write_parameters, arg, od + '/wp.txt', select_format=sel)
+        r = call(write_parameters, arg, od + '/wp.txt', select_format=sel, additional=add)
     elif op == 'wpr':
-        r = call(write_parameter_ranges, arg, od + '/wpr.txt', select_format=sel)
+        r = call(write_parameter_ranges, arg, od + '/wpr.txt', select_format=sel, additional=add)
     elif op == 'ep':
-        r = call(extract_parameters, arg, od + '/ep_', select_format=sel)
+        r = call(extract_parameters, arg, od + '/ep_', select_format=sel, header=extra.get('header', True))
     elif op == 'fo':
         r = call(filter_output, arg, output_good=od + '/good', output_bad=od + '/bad',
                  **{extra.get('criterion', 'cpd'): extra.get('threshold', 3.7)})
     elif op == 'plot':
-        r = call(plot, arg, select_format=sel, sed_type=extra.get('sed_type', 'interp'))
+        r = call(plot, arg, select_format=sel, sed_type=extra.get('sed_type', 'interp'), show_convolved=bool(extra.get('show_convolved')),
+                 plot_mode=extra.get('plot_mode', 'A'), plot_max=extra.get('plot_max'), memmap=extra.get('memmap', True))
     else:
         raise env.HarnessError('consumer %r' % op)
     if r[0] == 'exc':
